@@ -55,7 +55,7 @@ def register_providers(P):
     @user_roles_getter(U, None)
     def u_roles(u, obj): return _form([r for r in STATE['roles'].get((('U', u.uid), okey(obj)), ()) if r != 'ra'])
     @obj_labels_getter()
-    def o_labels(obj): return _form(STATE['labels'].get(okey(obj), ()))
+    def o_labels(obj): return _form([l for l in STATE['labels'].get(okey(obj), ()) if l != 'lb'])
 
 def register_string_user_providers():
     # long-lived hashable user keys (login names): the same key is used in every session of a thread
@@ -75,6 +75,11 @@ def register_class_filtered_role_provider(A):
     # answers only for objects of class A (incl. subclass A2): the role 'ra'; the unfiltered getters never answer 'ra'
     @user_roles_getter(None, A)
     def a_roles(user, obj): return _form(['ra']) if 'ra' in STATE['roles'].get((ukey(user), okey(obj)), ()) else None
+
+def register_class_filtered_label_provider(B):
+    # registered after the generic label getter, for objects of class B only: the label 'lb'
+    @obj_labels_getter(B)
+    def b_labels(obj): return _form(['lb']) if 'lb' in STATE['labels'].get(okey(obj), ()) else None
 
 def register_entity_user_providers(P):
     @user_groups_getter(P)
@@ -165,7 +170,7 @@ def gen_decl(w, rng, small=False):
     if rng.random() < 0.04: perms = []      # perm() without a permission name: TypeError, nothing is registered
     groups = rng.choice([[], [], ['g1'], ['g2'], ['g1', 'g2']])
     roles = rng.choice([[], [], [], ['r'], ['self'], ['ra'], ['r', 'ra']])
-    labels = rng.choice([[], [], ['l']])
+    labels = rng.choice([[], [], ['l'], ['lb'], ['l', 'lb']])
     ex_choices = [{'e': A}, {'e': A2}, {'e': B}, {'e': C}, {'a': w.aid[w.A.b]}, {'a': w.aid[w.B.as_]}, {'a': w.aid[w.A.n]},
                   {'a': w.aid[w.B.cs]}, {'a': w.aid[w.C.bs]}, {'a': w.aid[w.A.id]}, {'a': w.aid[w.A2.m]}, {'a': w.aid[w.B.k]}]
     k = rng.choice([0, 0, 1, 1, 2])
@@ -199,6 +204,7 @@ def gen_inputs(w, rng):
     labels = {}
     for o in w.objs:
         l = rng.choice([[], ['l'], ['l', 'm'], ['m']])
+        if o[0] == 2 and rng.random() < 0.5: l = l + ['lb']
         if l: labels[o] = l
     return groups, roles, labels
 
@@ -357,6 +363,20 @@ def spec(w, decls, inputs, u, p, t, reasons=None):
 
 # ---------------------------------------------------------------------------------------------------- one case
 
+def role_getters(u, o, names, form):
+    """raw answers of the four registered role getters, in registration order: (U, any obj), (P, any obj), (str, any obj), (any user, A objects)"""
+    plain = [r for r in names if r != 'ra']
+    gs = [{'applies': u[0] == k, 'answer': json_answer(raw_form(plain, form)) if u[0] == k else None} for k in ('U', 'P', 'S')]
+    is_a = o[0] in (0, 1)
+    gs.append({'applies': is_a, 'answer': json_answer(raw_form(['ra'], form)) if is_a and 'ra' in names else None})
+    return {'getters': gs}
+
+def label_getters(o, names, form):
+    """raw answers of the two registered label getters: (any object), (B objects)"""
+    is_b = o[0] == 2
+    return {'getters': [{'applies': True, 'answer': json_answer(raw_form([l for l in names if l != 'lb'], form))},
+                        {'applies': is_b, 'answer': json_answer(raw_form(['lb'], form)) if is_b and 'lb' in names else None}]}
+
 def json_answer(a):
     return a if a is None or isinstance(a, str) else sorted(a)
 
@@ -376,8 +396,8 @@ def world_request(w, decls, inputs, calls, tojson, schema, form=None):
             'sub': [[e, s] for e, s in w.sub.items()],
             'attrs': [attr_json(w, a) for a in w.attrs],
             'decls': decls, 'users': users,
-            'roles': [[user_json(u), list(o), r] for (u, o), r in roles.items()],
-            'labels': [[list(o), l] for o, l in labels.items()],
+            'roles': [[user_json(u), list(o), role_getters(u, o, r, form) if form is not None else r] for (u, o), r in roles.items()],
+            'labels': [[list(o), label_getters(o, l, form) if form is not None else l] for o, l in labels.items()],
             'calls': [[user_json(u), p, t] for u, p, t in calls],
             'tojson': tojson, 'schema': schema}
 
@@ -616,7 +636,7 @@ def gen_session(w, rng, targets):
             r = rng.choice([[], [], ['r'], ['r', 'q']])
             if o[0] in (0, 1) and rng.random() < 0.4: r = r + ['ra']
             if r: roles[(u, o)] = r
-    labels = {o: ['l'] for o in w.objs if rng.random() < 0.5}
+    labels = {o: ['l'] + (['lb'] if o[0] == 2 and rng.random() < 0.5 else []) for o in w.objs if rng.random() < 0.5}
     users = SUSERS + [None]
     calls = [(rng.choice(users), rng.choice(['view', 'view', 'edit']), rng.choice(targets)) for _ in range(rng.choice([3, 6, 10]))]
     tj = (rng.choice(SUSERS), rng.choice(w.objs)) if rng.random() < 0.6 else None
@@ -788,7 +808,7 @@ def run(ctx):
     global W
     if W is None:
         W = build_world()
-        register_providers(W.P); register_entity_user_providers(W.P); register_string_user_providers(); register_class_filtered_role_provider(W.A)
+        register_providers(W.P); register_entity_user_providers(W.P); register_string_user_providers(); register_class_filtered_role_provider(W.A); register_class_filtered_label_provider(W.B)
     w = W
     rng = ctx.rng
     witness(ctx, w)
